@@ -56,7 +56,7 @@ pub fn render(e: &Value, idx: usize, rng: &mut Rng) -> Elem {
         return el;
     }
     // abstract body length 2 = short body, 3 = body longer than the BufReader capacity (8192)
-    let bl = match abs_bl { 0 => 0, 2 => rng.range(1, 60), _ => rng.range(8192, 20000) };
+    let bl = match abs_bl { 0 => 0, 2 => rng.range(1, 60), 9 => rng.range(6 << 20, 8 << 20), _ => rng.range(8192, 20000) }; // 9: a body of several MiB (echoed back: the response exceeds the socket buffers)
     let conn_line = match conn.as_str() {
         "ka" => format!("Connection: {}\r\n", rng.pick(&["keep-alive", "Keep-Alive", "KEEP-ALIVE", "keep-Alive"])),
         "close" => format!("Connection: {}\r\n", rng.pick(&["close", "Close"])),
@@ -74,7 +74,20 @@ pub fn render(e: &Value, idx: usize, rng: &mut Rng) -> Elem {
         if bl > 0 { el.body[0] = b"ABCDEFGHIJ"[idx % 10]; }
     } else {
         // three malformed classes; abs_dl = 2: detected in the start line, abs_dl = 3: detected later
-        let variant = if abs_dl == 2 { 0 } else { 1 + rng.below(2) };
+        // abs_dl = 2: detected in the start line (variants 0, 3); abs_dl = 3: detected later (variants 1, 2, 4)
+        let variant = if abs_dl == 2 { if rng.chance(1, 3) { 3 } else { 0 } } else { [1, 2, 4][rng.below(3)] };
+        if variant >= 3 {
+            // bytes that are not UTF-8 in the start line / in a header value: malformed, answered 400
+            let (h, dl): (Vec<u8>, usize) = if variant == 3 {
+                let mut l1 = format!("GET {}", path_of(&tgt)).into_bytes(); l1.extend_from_slice(&[0xff, 0xfe]); l1.extend_from_slice(format!(" HTTP/{}\r\n", ver).as_bytes());
+                let d = l1.len(); l1.extend_from_slice(format!("Host: localhost\r\n{}\r\n", conn_line).as_bytes()); (l1, d)
+            } else {
+                let mut l = format!("GET {} HTTP/{}\r\nX-Bin: a", path_of(&tgt), ver).into_bytes(); l.extend_from_slice(&[0xc3, 0x28, 0xff]); l.extend_from_slice(b"\r\n");
+                let d = l.len(); l.extend_from_slice(format!("Host: localhost\r\n{}\r\n", conn_line).as_bytes()); (l, d)
+            };
+            el.head = h; el.dl = dl;
+            return el;
+        }
         let (h, dl) = match variant {
             0 => { let l1 = format!("BLURB {} HTTP/{}\r\n", path_of(&tgt), ver); let d = l1.len(); (format!("{}Host: localhost\r\n{}\r\n", l1, conn_line), d) }
             1 => { let l1 = format!("GET {} HTTP/{}\r\nHost localhost\r\n", path_of(&tgt), ver); let d = l1.len(); (format!("{}{}\r\n", l1, conn_line), d) }
@@ -235,10 +248,10 @@ fn mon_take(mon: &Mon, port: u16) -> Vec<String> {
     match all.iter().rposition(|k| k == "CS") { Some(i) => all[i..].to_vec(), None => all }
 }
 
-pub struct Job { pub id: i64, pub timeout: bool, pub script: Vec<Value>, pub plan: String, pub sends: Vec<usize>, pub expected_n: usize, pub final_open: bool }
+pub struct Job { pub slow_read_ms: u64, pub id: i64, pub timeout: bool, pub script: Vec<Value>, pub plan: String, pub sends: Vec<usize>, pub expected_n: usize, pub final_open: bool }
 
 pub fn parse_job(v: &Value) -> Job {
-    Job { id: v["id"].as_i64().unwrap_or(0), timeout: v["timeout"].as_bool().unwrap_or(false),
+    Job { slow_read_ms: v["slow_read_ms"].as_u64().unwrap_or(0), id: v["id"].as_i64().unwrap_or(0), timeout: v["timeout"].as_bool().unwrap_or(false),
           script: v["script"].as_array().cloned().unwrap_or_default(), plan: v["plan"].as_str().unwrap_or("whole").to_string(),
           sends: v["sends"].as_array().map(|a| a.iter().map(|x| x.as_u64().unwrap_or(1) as usize).collect()).unwrap_or_default(),
           expected_n: v["expected_n"].as_u64().unwrap_or(0) as usize, final_open: v["final_open"].as_bool().unwrap_or(false) }
@@ -352,6 +365,8 @@ pub fn run_job(job: &Job, addr: SocketAddr, seed: u64, mon: Option<&Mon>) -> Val
         if eof { break; }
     }
     let mut eof_logged = events.iter().any(|e| e["e"] == "Eof");
+    // a client that is slow to start reading: a large response must still arrive complete
+    if job.slow_read_ms > 0 { std::thread::sleep(Duration::from_millis(job.slow_read_ms)); }
     // collect the owed responses (pacing by the expected count; the verdict is TLC's)
     let t0 = Instant::now();
     let mut last_data = Instant::now();
